@@ -1053,7 +1053,38 @@ def r01_6(ctx: Ctx):
     defs = local_defs(f)
     t = canon(x, defs)
     ok = t.endswith(".best_individual.genome")
-    obs = [ctx.ob("R01.6", f, x, status=OK if ok else VIOLATION, detail="x = genome of the tree's best individual (a recorded, box-closed individual)" if ok else f"minimize() returns x = `{norm(x)}`")]
+    st = OK if ok else VIOLATION
+    if not ok:
+        # any RECORDED individual's genome is box-closed (R01.1-R01.5): which of them is reported is C04's question, not this one
+        def arms(e, depth=0):
+            while isinstance(e, ast.Name) and len(defs.get(e.id, [])) == 1 and depth < 5:
+                e = defs[e.id][0]
+                depth += 1
+            if isinstance(e, ast.IfExp):
+                return arms(e.body, depth + 1) + arms(e.orelse, depth + 1)
+            return [e]
+
+        def recorded(e):
+            if not (isinstance(e, ast.Attribute) and e.attr == "genome"):
+                return None
+            outs = []
+            for a in arms(e.value):
+                if isinstance(a, ast.Attribute) and "best" in a.attr and "individual" in a.attr:
+                    outs.append(True)
+                elif isinstance(a, (ast.BinOp, ast.Constant)) or (isinstance(a, ast.Call) and norm(a.func).split(".")[0] in ("np", "numpy")):
+                    outs.append(False)
+                else:
+                    outs.append(None)
+            return True if all(o is True for o in outs) else False if any(o is False for o in outs) else None
+
+        verdicts = [recorded(a) for a in arms(x)]
+        if all(v is True for v in verdicts):
+            st = OK
+        elif any(isinstance(a, (ast.BinOp, ast.Constant)) or (isinstance(a, ast.Call) and norm(a.func).split(".")[0] in ("np", "numpy", "apply_bounds")) for a in arms(x)) or any(v is False for v in verdicts):
+            st = VIOLATION
+        else:
+            st = INCONCLUSIVE
+    obs = [ctx.ob("R01.6", f, x, status=st, detail="x = genome of a recorded best individual (recorded individuals are box-closed)" if st == OK else f"minimize() returns x = `{norm(x)}`" + (" - a value computed after the run, not the genome of a recorded individual" if st == VIOLATION else ": cannot tell whether this is the genome of a recorded individual"))]
     # the box the run works in is the box the caller declared: `bounds` is at most converted to an array on its way to the problem
     bp = "bounds"
     if bp in f.params():
